@@ -2141,7 +2141,7 @@ def search(ctx):
         feats = spec_features(sp)
         ctx.case({"spec": sp, "failing": sorted({f[0] for f in found})[:6]}, nontrivial=nontrivial(sp),
                  bucket="sweep:" + ("+".join(sorted(feats)) if feats else "plain") + (":ok" if not found else ":fails"))
-    n_cases = ctx.budget(200, 4000)
+    n_cases = ctx.budget(200, 3000)
     for _ in range(n_cases):
         sp = gen_program(rng, wide=True)
         found = evaluate(ctx, sp, origin="search", seen=seen)
